@@ -58,6 +58,11 @@ func resultPool() []string {
 		"pn/s" + hx(""),
 		"pn/e" + hx("boom"),
 		"pn/n",
+		// values of non-comparable dynamic types (a slice-typed error, a panic with a slice): results like any other
+		"er/u" + hx("boom") + "/" + outsNone,
+		"er/p" + hx("ctx") + ">u" + hx("boom") + "/" + outsLack,
+		"er/u" + hx("fields") + "/" + outsMixed,
+		"pn/l" + hx("boom"),
 	}
 }
 
@@ -93,6 +98,12 @@ func msgPool() []string {
 			}
 		}
 	}
+	// a caller-set deadline beyond every Timeout of the chain; messages that were settled before they enter the chain
+	// (acked: !a, nacked: !k - Ack() is then a no-op that returns false)
+	ms = append(ms,
+		"far/n/n/n", "far/-/ns2000/n", "far/"+hx("in-cid")+"/raw-/"+hx("h-cid"),
+		"live!k/n/n/n", "live!a/n/n/n", "deadline!k/"+hx("in-cid")+"/ns2000/n", "cancelled!k/n/n/n",
+		"far!k/n/n/n", "far!a/-/n/n", "cancelled!a/n/n/n", "live!k/"+hx("in-cid")+"/raw-/"+hx("h-cid"), "deadline!a/n/n/n")
 	return ms
 }
 
@@ -110,6 +121,9 @@ func scriptPool(rs []string) []string {
 		F + ";" + F + ";" + F + ";" + F + ";" + SO,
 		SO,
 		rs[15] + ";" + F + ";" + S,
+		rs[16] + ";" + SO,                   // an error of a non-comparable type, then success
+		rs[19] + ";" + rs[17] + ";" + S,     // a panic with a slice value, then a wrapped slice-typed error
+		rs[18],                              // always fails with an unlisted slice-typed error
 	}
 }
 
